@@ -280,9 +280,15 @@ def core_request(wire, bodies, ign, entry_index, cases, fuel):
             f'(rules {" ".join(bodies)}) (entry (ref {entry_index})) (cases {cs}))')
 
 
-def run_real(parse, text, pos=0, spans=False, limit=5.0):
+def run_real(parse, text, pos=0, spans=False, limit=5.0, _retry=True):
     """outcome of the implementation in the model's vocabulary:
-    ('S', value, end) | ('F', index) | ('X', ExceptionClass)"""
+    ('S', value, end) | ('F', index) | ('X', ExceptionClass).
+    A time-out is only believed when it repeats with six times the limit (a loaded machine must not raise an alarm)."""
+    if _retry:
+        r = run_real(parse, text, pos, spans, limit, _retry=False)
+        if r == ('X', 'Timeout'):
+            r = run_real(parse, text, pos, spans, limit * 6, _retry=False)
+        return r
     mod = sys.modules.get(parse.__module__) if hasattr(parse, '__module__') else None
     try:
         with time_limit(limit):
@@ -435,8 +441,14 @@ def pval_api(v):
     return pval(v)
 
 
-def run_real_api(parse, text, pos, full, limit=5.0):
-    """('V', val) | ('P', val, idx) | ('E', idx) | ('X', name); also returns the raw value/exception"""
+def run_real_api(parse, text, pos, full, limit=5.0, _retry=True):
+    """('V', val) | ('P', val, idx) | ('E', idx) | ('X', name); also returns the raw value/exception.
+    A time-out is only believed when it repeats with six times the limit."""
+    if _retry:
+        r = run_real_api(parse, text, pos, full, limit, _retry=False)
+        if r[0] == ('X', 'Timeout'):
+            r = run_real_api(parse, text, pos, full, limit * 6, _retry=False)
+        return r
     try:
         with time_limit(limit):
             v = parse(text, pos, full)
